@@ -346,7 +346,7 @@ def build_request(ex, meta):
         r["trait"] = o["trait"]
     if "derive" in o:
         r["derive_keep"] = [x for x in o["derive"].split(",") if x and x != "Structural"]
-    for k in ("index_recv", "drop_calls", "opaque_macros", "mut_params", "str_params", "into_vec", "iter_on", "iter_vec", "keyed_mut_iter", "deref_params"):
+    for k in ("index_recv", "drop_calls", "opaque_macros", "mut_params", "str_params", "into_vec", "iter_on", "iter_vec", "keyed_mut_iter", "deref_params", "subst"):
         if k in o:
             r[k] = o[k].split(",")
     if "param_types" in o:
@@ -569,6 +569,8 @@ def assemble(unit, workdir, vacuity_twins=False):
         contract = "\n".join(ex["contract"]).rstrip()
         body = splice_body(item["body"], ex, item)
         hdr = item.get("impl_header")
+        if ex["opts"].get("slice_sig") and not re.search(r"\bself\b", ex["opts"]["slice_sig"]):
+            hdr = None  # a slice with a free-function signature is emitted outside the impl block
         fq = ex["path"] + ("__pc" if ex.get("twin_of") else "")
         emit(f"// ---- extracted fn {fq} from {src} (panics={build_request(ex, meta)['panics']})")
         if item.get("hoisted") and not ex.get("twin_of"):
